@@ -17,9 +17,20 @@ RULE = ('dense datasets: small-integer templates (amplitude ties, ties at the ma
         'datasets: column tables (int16 .. int64, uint16 .. uint64: unused = the dtype\'s -1, all-ones when unsigned) '
         'with unused and all-zero columns, arbitrary values under unused columns, and stored columns whose size '
         'relative to the template maximum is spread over 2^-27 .. 1 on both sides of the 1e-6 "signal-free" line. '
+        'Floating-point class (one extra dense dataset in nine): the unwhitened product is NOT exact - diagonal whitening '
+        'with non-dyadic gains (0.7, 1.3, 3, ...: inverse stored, stored alone, or computed by the loader), full 24-bit '
+        'single precision templates with almost-tied channels, or templates.npy in double precision holding values single '
+        'precision cannot hold (baseline + 2^-28 ripple); the Lean model rounds the product to double and then to single '
+        'precision (roundNE) and the record must be the C05 record OF THE RETURNED single precision waveform: amplitude '
+        'vector = peak-to-peak of the returned columns, order and threshold test on those; judged where `max - min` is '
+        'exact on every channel (one-sided / one-sign columns) and the dot product has one term per entry. '
         'One case = one loaded TemplateModel, every template queried in several variants; the Lean executable '
         'decides the C05 predicate on each real record. non-trivial = record with >= 2 listed channels')
-ASSUMPTIONS = ['float32 cast and matrix product are exact on the generated values (small integers x dyadic diagonal)',
+ASSUMPTIONS = ['float32 cast and matrix product are exact on the generated values (small integers x dyadic diagonal), except in the '
+               'floating-point class: there np.dot(x, diagonal) * scaling is one correctly rounded double product followed by one '
+               'correctly rounded scaling, astype(float32) is round-to-nearest-even (Lean roundNE, compared value by value with '
+               'the returned columns), and the per-channel subtraction max - min is exact (checked by the Lean driver on the '
+               'model waveform: ptp_exact; a record where it is not is not judged)',
                'the float32 comparison `max|column| > max * 1e-6` of sparse storage agrees with the exact one on the '
                'generated values: no column lies within 2^-20 (relative) of the line',
                'np.argsort tie order is not modelled: the predicate accepts any order among equal keys; the exact '
@@ -83,6 +94,8 @@ def _q(case, v, wmi, impl_rec=None):
             thr = case['thr_default']
         q.update(op='dense', positions=DC.fracs(spec['channel_positions']), shanks=spec.get('channel_shanks'),
                  n_closest=case['n_closest'], thr=DC.frac(thr), explicit=v.get('explicit'))
+    if spec.get('_float_store') and spec.get('template_ind') is None:
+        q['float_store'] = int(spec['_float_store'])
     if impl_rec is not None and 'raised' not in impl_rec:
         q['impl'] = dict(template=DC.fracs(impl_rec['template']), channels=impl_rec['channels'],
                          amplitude=DC.fracs(impl_rec['amplitude']), best=impl_rec['best'])
@@ -117,6 +130,8 @@ def judge(case, impl_res, ans):
     for i, (v, r, m) in enumerate(zip(case['variants'], ok['recs'], ans['ok']['res'])):
         if _outside(case, v):
             continue
+        if m.get('ptp_exact') is False or (v['unwhiten'] and m.get('one_term') is False):
+            continue        # floating-point class: the subtraction / the dot product rounds on this waveform - no exact verdict
         if m['model_spec'] is not True:
             return 'MACHINERY: model record rejected by its own spec (contradicts the theorem), variant %d' % i
         if 'raised' in r:
@@ -165,6 +180,14 @@ def tally(rep, case, impl_res, ans):
     if case.get('reopen'):
         rep.count('second_model_on_the_directory')
     spec = case['spec']
+    if spec.get('_float_store'):
+        rep.count('inexact_float_path:templates.npy %s, whitening %s' % ('float64' if spec['_float_store'] == 53 else 'float32 (24-bit values)',
+                                                                         spec.get('_float_whitening')))
+        if 'ok' in ans:
+            for v, m in zip(case['variants'], ans['ok']['res']):
+                judged = not (m.get('ptp_exact') is False or (v['unwhiten'] and m.get('one_term') is False))
+                rep.count('inexact_float_path_records:%s%s' % ('unwhitened (rounded to single precision)' if v['unwhiten'] else 'as stored',
+                                                               '' if judged else ', NOT judged (max - min or the dot product rounds)'))
     rep.count('storage:%s' % ('sparse' if spec.get('template_ind') is not None else 'dense'))
     if spec.get('template_ind') is not None:
         rep.count('column_table_dtype:' + (spec.get('dtypes') or {}).get('template_ind', 'int32'))
@@ -299,9 +322,27 @@ def _wraps(positions, dtype):
     return bool(d2.max() > np.iinfo(dt).max)
 
 
+def _float_case(rng):
+    """dense dataset of the floating-point class (DC.inexact_float_spec): the same requests as on the exact datasets"""
+    nc = rng.randrange(2, 9)
+    spec = DC.inexact_float_spec(rng, DC.dense_spec(rng, nc=nc, feats=False, curated=False, whiten='none',
+                                                    shanks=rng.random() < .4, nt=rng.randrange(2, 4)))
+    variants = []
+    for t in range(len(spec['templates'])):
+        variants.append(dict(t=t, unwhiten=True, accessors=True))
+        variants.append(dict(t=t, unwhiten=rng.random() < .75, thr=rng.pick([0, .25, .5, 1.])))
+        variants.append(dict(t=t, unwhiten=rng.random() < .75,
+                             explicit=rng.sample(range(nc), 0 if rng.random() < .1 else rng.randrange(1, nc + 1)),
+                             ekind=rng.pick(['int64', 'list', 'int32'])))
+    return dict(p=PID, spec=spec, n_closest=rng.pick([1, 2, 3, 5, 12]), thr_default=rng.pick([0, 0, .25, .5]),
+                variants=variants, reopen=rng.random() < .2)
+
+
 def gen(tier, rng):
     q = tier == 'quick'
     for i in range(220 if q else 4000):
+        if i % 9 == 4:
+            yield _float_case(rng)      # floating-point class, in addition to the exact datasets
         nc = rng.randrange(2, 9)
         if i % 4 == 3:
             yield _sparse_case(rng, nc, q)      # sparse storage
